@@ -240,9 +240,20 @@ func ruleEnc(c *Ctx) []*Ob {
 		for _, cn := range []string{"totOperationSet", "totOperationDel", "totKeyByte", "totValByte"} {
 			fv := c.Field(tn, cn)
 			st := false
-			for _, a := range fieldAccesses(sib, func(v *types.Var) bool { return v == fv }) {
-				if a.Kind == "store" {
-					st = true
+			// in the encoder itself or in a helper it calls on the same receiver (countMutation)
+			scope := []*ssa.Function{sib}
+			eachInstr(sib, func(i ssa.Instruction) {
+				if call, ok := i.(*ssa.Call); ok {
+					if h := call.Call.StaticCallee(); h != nil && h.Pkg == c.Moss && h != sib && h.Signature.Recv() != nil && len(call.Call.Args) > 0 && len(sib.Params) > 0 && sameValue(call.Call.Args[0], sib.Params[0]) {
+						scope = append(scope, h)
+					}
+				}
+			})
+			for _, g := range scope {
+				for _, a := range fieldAccesses(g, func(v *types.Var) bool { return v == fv }) {
+					if a.Kind == "store" {
+						st = true
+					}
 				}
 			}
 			why := "maintained"
